@@ -131,7 +131,7 @@ func init() {
 
 func (p *c11) ID() string { return "C11" }
 func (p *c11) Rule() string {
-	return "soup: seeded random bytes, token soup over an HTML/mustache/directive dictionary and byte/token mutations of the repository's .vuego corpus, as template body and as front-matter, through 7 entry points; types: every typed value of a 45-value catalogue (all numeric kinds, nil, typed nils, chan, func, maps with non-string keys, structs with unexported/embedded fields, cyclic pointer struct, deep nesting) x every directive position (v-for collection, v-if/else-if, v-show, :style with/without static style, :class, object syntax, v-html, v-text, bound/interpolated attrs, path steps, every built-in filter and argument position, operators, include props, slot props, template vars) - exhaustive; graph: every include graph over 3 files (each includes any subset of the others and itself) x 4 include forms (direct, in v-for, in v-if, as slot content) - exhaustive, plus layout cycles/chains; slotfwd: wrapper components forwarding named/default/scoped slots to inner components (also through two levels, inside v-for, and through a layout); struct: struct/pointer root data with unexported, embedded and cyclic fields; non-trivial = every case that reached the engine; distinct by case content"
+	return "expr: every string of <=3 (thorough <=4) tokens over 26 expression fragments (names, pipes, calls, lone quotes, brackets, operators, mustache delimiters) written into 8 expression positions ({{ }}, :attr, v-text, v-if, v-for, v-html, mustache in a static attribute, :class/:style object values); soup: seeded random bytes, token soup over an HTML/mustache/directive dictionary and byte/token mutations of the repository's .vuego corpus, as template body and as front-matter, through 7 entry points; types: every typed value of a 45-value catalogue (all numeric kinds, nil, typed nils, chan, func, maps with non-string keys, structs with unexported/embedded fields, cyclic pointer struct, deep nesting) x every directive position (v-for collection, v-if/else-if, v-show, :style with/without static style, :class, object syntax, v-html, v-text, bound/interpolated attrs, path steps, every built-in filter and argument position, operators, include props, slot props, template vars) - exhaustive; graph: every include graph over 3 files (each includes any subset of the others and itself) x 4 include forms (direct, in v-for, in v-if, as slot content) - exhaustive, plus layout cycles/chains; slotfwd: wrapper components forwarding named/default/scoped slots to inner components (also through two levels, inside v-for, and through a layout); struct: struct/pointer root data with unexported, embedded and cyclic fields; non-trivial = every case that reached the engine; distinct by case content"
 }
 
 var c11Vals = []TV{
@@ -256,7 +256,45 @@ var c11SlotForward = []map[string]string{
 
 func (p *c11) Plan(ctx core.Ctx) int {
 	a, b, c, d, e := p.dims(ctx)
-	return a + b + c + d + e
+	return a + b + c + d + e + c11NExpr(ctx)
+}
+
+// expr part: every string of <=3 (thorough <=4) tokens over an alphabet of
+// expression fragments, written into each position in which the engine parses
+// an expression (the soups above rarely form a complete directive around such a
+// string). No outcome is expected except "returns".
+var c11ExprTokens = []string{"x", " | ", "default(", "upper", "(", ")", "'", `"`, ",", "1", ".", "[", "]", " ", "-", "!", " == ", " ? ", " : ", "a'b", `\`, "items", "{{", "}}", "|", "&&"}
+var c11ExprPos = []string{`<p>{{ $ }}</p>`, `<p :title="$">k</p>`, `<p v-text="$">k</p>`, `<p v-if="$">k</p><p v-else>e</p>`, `<p v-for="it in $">{{ it }}</p>`, `<p v-html="$"></p>`, `<p title="a {{ $ }} b">k</p>`, `<p :class="{on: $}" :style="{color: $}">k</p>`}
+
+func c11NExpr(ctx core.Ctx) int {
+	n, t, pw := len(c11ExprTokens), 0, 1
+	for l := 1; l <= ctx.Pick(3, 4); l++ {
+		pw *= n
+		t += pw
+	}
+	return t * len(c11ExprPos)
+}
+
+func c11ExprCase(i int) c11Case {
+	pos := c11ExprPos[i%len(c11ExprPos)]
+	i /= len(c11ExprPos)
+	n := len(c11ExprTokens)
+	l, pw := 1, n
+	for i >= pw {
+		i -= pw
+		pw *= n
+		l++
+	}
+	var b strings.Builder
+	for k := 0; k < l; k++ {
+		b.WriteString(c11ExprTokens[i%n])
+		i /= n
+	}
+	e := b.String()
+	if !strings.Contains(pos, "{{ $") {
+		e = strings.ReplaceAll(e, `"`, "&quot;") // inside a double-quoted attribute
+	}
+	return c11Case{Part: "expr", EP: c11EPs[(i+l)%len(c11EPs)], Tpl: strings.ReplaceAll(pos, "$", e)}
 }
 
 func (p *c11) soup(r *core.RNG) string {
@@ -389,6 +427,9 @@ func (p *c11) Gen(ctx core.Ctx, i int) any {
 		return c11Case{Part: "layout", Files: files, Entry: "page.vuego", EP: []string{"file", "renderfile"}[i%2]}
 	}
 	i -= nlayout
+	if ns := 12 + len(c11SlotForward); i >= ns {
+		return c11ExprCase(i - ns)
+	}
 	if i >= 12 {
 		return c11Case{Part: "slotfwd", Files: c11SlotForward[(i-12)%len(c11SlotForward)], Entry: "page.vuego", EP: []string{"file", "vue", "renderfile", "fragment"}[(i-12)%4]}
 	}
@@ -439,7 +480,7 @@ func (p *c11) Exec(ctx core.Ctx, cc any) (o core.Obs) {
 	var data any = map[string]any{"items": []any{1, "a"}, "user": map[string]any{"name": "N"}, "x": 1, "t": true, "two": []any{1, 2}, "one": 1}
 	cls := c.Part
 	switch c.Part {
-	case "soup":
+	case "soup", "expr":
 		entry = "page.vuego"
 		files[entry] = c.Tpl
 	case "types":
